@@ -444,6 +444,11 @@ func runReader(sc *rdScenario) string {
 			continue
 		}
 		stream = append(stream, fmt.Sprintf("%d:%d", m.Offset, msgDigest(m)))
+		if rd.Offset() != m.Offset+1 {
+			// Reader.Offset() is the position SetOffset compares with: it must follow the messages handed out
+			outcome = "badpos"
+			break
+		}
 		received++
 		lastMsg = time.Now()
 		atEnd = m.Offset == sc.Hwm-1
@@ -621,6 +626,10 @@ func readerCorpus() (scs []*rdScenario) {
 		mk(ver, "first", 2, []int{150}, nil, -1, 0, []rdSet{{K: 2, O: 112}, {K: 4, O: 100}})
 		mk(ver, "first", 100, []int{1}, nil, -1, 0, []rdSet{{K: 15, O: 114}})
 		mk(ver, "first", 5, []int{1}, nil, -1, 0, []rdSet{{K: 3, O: 103}})
+		// SetOffset to the offset of the message just handed out (it must come again) and to the one after it (no-op)
+		mk(ver, "first", 5, []int{1 << 20}, nil, -1, 0, []rdSet{{K: 4, O: 103}})
+		mk(ver, "first", 1, []int{1}, nil, -1, 0, []rdSet{{K: 4, O: 103}, {K: 6, O: 105}})
+		mk(ver, "first", 100, []int{150}, nil, -1, 0, []rdSet{{K: 4, O: 104}, {K: 5, O: 104}})
 		// slow consumer, QueueCapacity 1, responses cut at the byte limit inside the next batch: every batch ends
 		// after its (adjusted) deadline, i.e. with RequestTimedOut instead of io.EOF
 		mk(ver, "first", 1, []int{150}, nil, -1, 0, nil)
